@@ -99,3 +99,43 @@ Proof.
 Qed.
 
 End FileClasses.
+
+(* ---------- non-vacuity ---------- *)
+From RU Require Import Model.Host Proofs.C09_Host Spec.WhatwgHostParse.
+(* base parsed by both parsers; every reference is in the class `cls`, the flag says whether it meets std_contain_pre;
+   both sides succeed, the Standard's href is the model's serialization and equals the expected text; when the flag is
+   set the host text is the base's *)
+Definition std_fs_classes_case (cls : spec_url -> list N -> bool) (base : list N) (refs : list (list N * bool * list N)) : bool :=
+  let idna := ex_idna_clean in
+  match parse_url true (host_parse idna) host_parse_opaque host_display None None base,
+        spec_basic_url_parse (spec_host_parser idna) base None with
+  | POk b, BDone sb =>
+      spec_base_ok sb
+      && forallb (fun re =>
+           let r := fst (fst re) in
+           cls sb r && in_class_file_base_any sb r && Bool.eqb (std_contain_pre sb (spec_clean r)) (snd (fst re))
+           && match spec_basic_url_parse (spec_host_parser idna) r (Some sb),
+                    parse_url true (host_parse idna) host_parse_opaque host_display None (Some b) r with
+              | BDone su, POk u' =>
+                  (negb (snd (fst re)) || list_eqb (get_host spec_host_serializer su) (get_host spec_host_serializer sb))
+                  && list_eqb (get_href spec_host_serializer su) (ser u')
+                  && list_eqb (ser u') (snd re)
+              | _, _ => false
+              end) refs
+  | _, _ => false
+  end.
+
+From Coq Require Import String.
+From RU Require Import Proofs.C02_Reach.
+Open Scope string_scope.
+Lemma std_contain_file_classes_agree_inhabited :
+  std_fs_classes_case in_class_file_rel_path (B "file://h.x/tmp/d?q") [(B "e/f", true, B "file://h.x/tmp/e/f"); (B "../g?k#z", true, B "file://h.x/g?k#z")] = true
+  /\ std_fs_classes_case in_class_file_rel_one (B "file://h.x/tmp/d?q") [(B "/p", true, B "file://h.x/p"); (B "\p", true, B "file://h.x/p")] = true
+  /\ std_fs_classes_case in_class_file_rel_one_carry (B "file:///C:/a/b") [(B "/p", true, B "file:///C:/p")] = true
+  /\ std_fs_classes_case in_class_file_rel_drive (B "file:///tmp/d?q") [(B "C|/y", true, B "file:///C:/y")] = true
+  /\ std_fs_classes_case in_class_file_rel2 (B "file://h.x/tmp/d?q") [(B "//g.y/z", false, B "file://g.y/z")] = true
+  /\ std_fs_classes_case in_class_file_same_path (B "file://h.x/tmp/d?q") [(B "file:e/f", false, B "file://h.x/tmp/e/f")] = true
+  /\ std_fs_classes_case in_class_file_same_one (B "file://h.x/tmp/d?q") [(B "file:/p", false, B "file://h.x/p")] = true
+  /\ std_fs_classes_case in_class_file_same_one_carry (B "file:///C:/a/b") [(B "file:/p", false, B "file:///C:/p")] = true
+  /\ std_fs_classes_case in_class_file_same_drive (B "file:///tmp/d?q") [(B "file:C|/y", false, B "file:///C:/y")] = true.
+Proof. vm_compute. repeat split. Qed.
